@@ -1,6 +1,7 @@
 import GBS.Props.C07
 import GBS.Props.C11
 import GBS.Model.Parse
+import GBS.Lemmas.DistRoundTrip
 /-!
 # C09 — block sizes follow the declared distribution (decided by composition, without statistics)
 
@@ -11,6 +12,8 @@ import GBS.Model.Parse
   masses (for laws with atoms — the integer-valued families — `F(x⁻)` replaces `F(x)`; the harness evaluates both), and these
   probabilities telescope (`C09_block_law_normalised`).
 * one independent draw per object and per generation: `C07_one_draw`.
+* `C09_parameter_order`: for **every** pair of written numerals `ta`, `tb` of the literal syntax (`TokOK`), each of the six forms `|name(ta, tb)|` / `|name(ta)|` is read as that family with the parameters `[value ta, value tb]` in the written
+  order — the unbounded form of the six kernel-evaluated instances of `C09_parameters`.
 * `C09_parameters_*`: the text is mapped to family and parameters in the documented order (kernel-evaluated on the model
   parser, which the correspondence ties to distribution.py).
 `C09_numeric_partial`: that SciPy's draw for those parameters follows the declared law is checked deterministically against
@@ -90,5 +93,23 @@ theorem C09_parameters :
     parseDist "|poisson(65)|".toList = .ok { fam := .poisson, params := [65] } ∧
     parseDist "|flory_schulz(0.1)|".toList = .ok { fam := .florySchulz, params := [1/10] } := by
   refine ⟨?_, ?_, ?_, ?_, ?_, ?_⟩ <;> decide +kernel
+
+/-- **C09 (parameter order, all written numerals)**: the first written numeral is the first parameter (mean / low / Mw / Mn) and the
+second the second (sigma / high / Mn / dispersity), for every pair of numerals of the literal syntax; the single numeral of `poisson`
+and `flory_schulz` is their parameter; no family is mistaken for another. (`uniform` truncates its bounds like Python's `int`;
+`poisson` reads its numeral with `float`, hence the extra hypothesis; `schulz_zimm` refuses Mw = Mn.) -/
+theorem C09_parameter_order (ta tb : Py.Str) (a b : Rat) (ha : TokOK ta a) (hb : TokOK tb b) :
+    parseDist (distTextOf "gauss".toList ta tb) = .ok { fam := .gauss, params := [a, b] } ∧
+    parseDist (distTextOf "uniform".toList ta tb) = .ok { fam := .uniform, params := [truncRat a, truncRat b] } ∧
+    (a ≠ b → parseDist (distTextOf "schulz_zimm".toList ta tb) = .ok { fam := .schulzZimm, params := [a, b] }) ∧
+    parseDist (distTextOf "log_normal".toList ta tb) = .ok { fam := .logNormal, params := [a, b] } ∧
+    (Num.parseFloat ta = Num.FloatRes.ok a → parseDist (distText1Of "poisson".toList ta) = .ok { fam := .poisson, params := [a] }) ∧
+    parseDist (distText1Of "flory_schulz".toList ta) = .ok { fam := .florySchulz, params := [a] } :=
+  ⟨dist_gauss_written ta tb a b ha hb, dist_uniform_written ta tb a b ha hb, fun hab => dist_schulzZimm_written ta tb a b hab ha hb,
+   dist_logNormal_written ta tb a b ha hb, fun hpf => dist_poisson_written ta a ha hpf, dist_florySchulz_written ta a ha⟩
+
+/-- the hypotheses are met by texts that are not the canonical print: `1.5e3` reads as 1500 and `20.50` as 41/2 -/
+example : TokOK "1.5e3".toList 1500 ∧ TokOK "20.50".toList (41 / 2) := by
+  refine ⟨⟨?_, ?_, ?_, ?_, ?_⟩, ⟨?_, ?_, ?_, ?_, ?_⟩⟩ <;> decide +kernel
 
 end GBS.P
